@@ -1,0 +1,23 @@
+//go:build verif
+
+package gate
+
+import "go.minekube.com/gate/pkg/gate/config"
+
+// VerifApplyMergePatch is applyMergePatch.
+func VerifApplyMergePatch(target, patch any) any { return applyMergePatch(target, patch) }
+
+// VerifMergeConfigPatch is mergeConfigPatch.
+func VerifMergeConfigPatch(current *config.Config, patch string) (*config.Config, error) {
+	return mergeConfigPatch(current, patch)
+}
+
+// VerifCanonicalConfigJSON is canonicalConfigJSON.
+func VerifCanonicalConfigJSON(current *config.Config) ([]byte, error) {
+	return canonicalConfigJSON(current)
+}
+
+// VerifDecodeConfigStrict is decodeConfigStrict.
+func VerifDecodeConfigStrict(b []byte, extension string, candidate *config.Config) error {
+	return decodeConfigStrict(b, extension, candidate)
+}
